@@ -169,7 +169,8 @@ func CheckWellFormed(r *Report, in WFInput) []string {
 				s, ok := id.(string)
 				if !ok || s == "" {
 					add("@id is not a non-empty string at %s", where)
-				} else {
+				} else if len(v) > 1 {
+					// an object holding nothing but "@id" is a reference to a node (a link quoted as a value), not a node
 					ids[s]++
 				}
 			}
